@@ -10,6 +10,7 @@ judge : Trace_Present (TLC): observed = meaning of the presented grammar, and (m
         meaning(presented) = renamed/permuted meaning(original).
 """
 from __future__ import annotations
+import math
 import copy, json, warnings
 from ..common import *
 from .. import ag as AG
@@ -226,6 +227,31 @@ def _one(args):
             'ren': ren, 'perm': perm, 'sched': sched, 'runs': observe(agp, sched, idx), 'vit': observe_viterbi(agp, sched, idx)}
 
 
+def drive_recursive(args):
+    """a RECURSIVE grid grammar (least fixed point proved by TLC) written down in several ways: every way must give the
+    one least fixed point -- rule order, edge order inside a rule and node numbering are presentation only"""
+    import torch
+    from . import c02
+    seed, i, k = args
+    rng = rng_for(seed, f'c12rec-{i}')
+    a = AG.gen_fx_recursive(rng, linear=(i % 3 == 0), max_q=0.9)
+    out = []
+    for pi in range(k):
+        b = AG.permute_presentation(rng, a) if pi else a
+        runs = []
+        for kind in ('real', 'log'):
+            for method in ('fixed-point', 'newton'):
+                proj = (lambda t: [c02.interval_fx(float(x)) for x in t.reshape(-1).tolist()]) if kind == 'real' else \
+                       (lambda t: [c02.interval_fx(math.exp(float(x))) if float(x) < 30 else [INF, INF] for x in t.reshape(-1).tolist()])
+                scale = 1.0 if kind == 'real' else max(1.0, 1.01 * max(max(v) for v in a['cert'].values()) / AG.FXS)
+                r = c02.one_run(lambda: AG.build_fgg_fx(b, kind, torch.float64)[0], kind, 'fx', method, 1e-6, 1000, torch.float64, proj, scale)
+                r.pop('trace', None)
+                r['tag'] = r['tag'] + [f'presentation{pi}']
+                runs.append(r)
+        out.append({'ag': {kk: b[kk] for kk in ('nls', 'els', 'start', 'rules', 'wfx', 'cert')}, 'runs': runs, 'q_hint': a['q_hint']})
+    return out
+
+
 def run(tier, seed):
     o = Outcome(PID, tier, seed)
     o.assumptions = ['non-recursive targets (exact carriers); schedules sampled by TLC -simulate from the builder machine',
@@ -264,6 +290,14 @@ def run(tier, seed):
         if any(v.get('v') == 'SPEC-INCONSISTENT' for v in verdicts.values()):
             raise MachineryFailure('model-level theorem Z(presented) = permuted Z(original) failed: specification or presentation generator is wrong')
         o.absorb_verdicts(cases, verdicts, load_findings())
+        nrec, kpres = (16, 4) if tier == 'quick' else (150, 6)
+        rcases = [c for cs in pmap(drive_recursive, [(seed, i, kpres) for i in range(nrec)], chunksize=1) for c in cs]
+        rv, st, tr, _ = judge_batch(work / 'rjudge', 'Trace_Recursive', rcases, per_shard_min=4, heap='3g')
+        o.states += st
+        o.transitions += tr
+        o.absorb_verdicts(rcases, rv, load_findings(), part='recursive_presentations')
+        o.extra['recursive_presentations'] = len(rcases)
+        o.extra['recursive_presentations_certified'] = sum(1 for v in rv.values() if v.get('certified'))
         o.extra['distinct_schedules'] = len({json.dumps(c['sched']) for c in cases})
         o.sample({'sched': cases[0]['sched'], 'perm': cases[0]['perm'], 'ren': cases[0]['ren']})
     return o
